@@ -20,3 +20,38 @@ pub use self::service::{
     MEM_BROKER_API_VERSION,
 };
 pub use self::store::MetaStoreError;
+
+// Verification hooks (no behaviour change): re-export private modules for the /verif harness.
+#[cfg(undermoon_verif)]
+pub mod verif_export {
+    pub mod epoch {
+        pub use super::super::epoch::*;
+    }
+    pub mod migrate {
+        pub use super::super::migrate::*;
+    }
+    pub mod ordered_proxy {
+        pub use super::super::ordered_proxy::*;
+    }
+    pub mod persistence {
+        pub use super::super::persistence::*;
+    }
+    pub mod query {
+        pub use super::super::query::*;
+    }
+    pub mod resource {
+        pub use super::super::resource::*;
+    }
+    pub mod storage {
+        pub use super::super::storage::*;
+    }
+    pub mod store {
+        pub use super::super::store::*;
+    }
+    pub mod update {
+        pub use super::super::update::*;
+    }
+    pub mod utils {
+        pub use super::super::utils::*;
+    }
+}
